@@ -82,7 +82,7 @@ let spec input obs =
       | false, ["pass"] ->
         if Auth.needs_admin r && Auth.spec_reaches c.auth admin table (coq_of_string "GET", snd r) (coq_of_string c.hdr)
         then "FAIL non-admin-reached-admin-route" else "FAIL unauthenticated-request-reached-handler"
-      | false, ("401" :: "UNSTRUCTURED" :: _) -> "FAIL unstructured-401"
+      | false, ["401"; "UNSTRUCTURED"; "unchanged"] -> "FAIL unstructured-401"
       | false, ["401"; _; "unchanged"] -> "OK"
       | false, ["401"; _; ch] -> "FAIL state-changed-on-rejected-request " ^ ch
       | false, _ -> "FAIL malformed-observable " ^ obs
